@@ -15,7 +15,7 @@ RULE = ("Hypothesis rule-based state machine over one AurelCore instance: the "
         "tensor-calculus helpers on generated smooth fields, or re-access an "
         "earlier request. After every step the returned value is compared "
         "leaf-wise with what a fresh never-evicting instance returns for "
-        "that single request: |a-b| <= 1e-10*scale + 20*E_k (E_k = "
+        "that single request: |a-b| <= 1e-10*scale + 10*E_k (E_k = "
         "difference between FD orders p and p+2 of the fresh value), else "
         "the history is replayed at order p+2 and forgiven only if the "
         "discrepancy drops 4-fold. Non-trivial history = an eviction was "
@@ -62,7 +62,7 @@ def designed_histories():
     W = cases.generic_W(4)
     base = dict(spec=W["spec"], t=0.3, N=[6, 7, 6],
                 h=[x / 4 for x in W["h"]], x0=[-0.25, -0.3125, -0.28125],
-                order=2, boundary="no boundary", Lambda=0.2, vacuum=False,
+                order=4, boundary="no boundary", Lambda=0.2, vacuum=False,
                 matter="Tdown4", form="components", omit=[],
                 tetrad="quasi-Kinnersley", mem_gb=4, lmax=2,
                 extra_inputs=[], freeze="freeze_data", readonly=False)
@@ -123,12 +123,36 @@ def designed_histories():
     return out
 
 
+def operand_histories():
+    """For every catalogue key K: request K's direct operands, then K, then
+    the operands again (cache hits). Any computation that writes into an
+    operand it took from the cache shows as a wrong re-accessed value (C01)
+    or a changed digest (C02). No eviction (period 1000). Also run on data
+    with a NaN point (excised cell)."""
+    base = designed_histories()[0]["cfg"]
+    deps = CM.dependencies()
+    out = []
+    for i, k in enumerate(CM.ALL_KEYS):
+        d = [x for x in sorted(deps.get(k, ())) if x != k]
+        if not d:
+            continue
+        ops = [G(x) for x in d] + [G(k)] + [G(x) for x in d]
+        cfg = dict(base, clear_every=1000,
+                   form="tensors" if i % 2 else "components",
+                   tetrad="fluid" if i % 3 == 0 else "quasi-Kinnersley")
+        if i % 4 == 0 or k in ("Psi4_lm", "Weyl_Psi", "Weyl_invariants"):
+            cfg["nan_at"] = [["kxx" if cfg["form"] == "components"
+                              else "Kdown3", [4, 5, 4]]]
+        out.append(dict(cfg=cfg, ops=ops))
+    return out
+
+
 def subchecks(tier):
     q = tier == "quick"
     return [
         Sub("history", None, test, 48 if q else 1500, kind="machine",
             machine=factory, steps=30, shards=8 if q else 16, max_rounds=3, shrink_quick=False,
-            generic=designed_histories()),
+            generic=designed_histories() + operand_histories()),
         Sub("history_aggressive", None, test, 48 if q else 1500,
             kind="machine", machine=factory_aggr, steps=40,
             shards=8 if q else 16, max_rounds=3, shrink_quick=False),
